@@ -323,6 +323,41 @@ func TestC08Recovery(t *testing.T) {
 				}
 				s.stepMigrate()
 			},
+			"clientRestartFreshFile": func(t *rapid.T) {
+				// the device reboots and the meter starts a new energy file: what the
+				// client knows is in its history file, its "latest reading" is unknown
+				// until the next row appears - a sync round must still resend
+				if len(clientVal) == 0 {
+					t.Skip("nothing recorded yet")
+				}
+				world.WriteEnergy(cdir, file.String())
+				if ticksGranted < 27 {
+					ticksGranted++
+					if !world.Step(c, "tick") {
+						s.fail("client did not take the granted tick (panics %+v)", client.VerifPanics())
+					}
+					collect(unticked)
+					unticked = 0
+				}
+				if unticked > 0 {
+					t.Skip("readings not yet picked up")
+				}
+				if err := world.CloseClient(c); err != nil {
+					s.fail("client close: %v", err)
+				}
+				collect(0)
+				file.Reset()
+				file.WriteString("timestamp,energy (mWh)\n")
+				world.WriteEnergy(cdir, file.String())
+				var err error
+				if c, err = world.StartClient(cdir); err != nil {
+					s.fail("client restart: %v", err)
+				}
+				ticksGranted = 0
+				latest = 0
+				s.logf("client restarted with a fresh energy file")
+				ev.Label("c08:client-restart-fresh-file")
+			},
 			"serverRestart": func(t *rapid.T) {
 				s.restart(s.now)
 				relay.Retarget(s.S.TCP)
